@@ -33,6 +33,15 @@
 (*                     file (so a crash in between leaves file >= index,   *)
 (*                     which start-up reconciliation repairs)              *)
 (*   FixTornTail       opening a store first drops a trailing fragment     *)
+(*                                                                         *)
+(* The index has two layouts (index.go): entries written by this version   *)
+(* live in one of 65536 hash-prefix sub-buckets (idx), entries written by  *)
+(* an older version live directly in the root bucket (ridx).  Lookups try  *)
+(* the sub-bucket first and fall back to the root bucket; a rollback       *)
+(* deletes a root entry if there is one, else the sub-bucket entry; new    *)
+(* entries always go to the sub-buckets.  The environment action Legacy    *)
+(* turns the index into what an older version would have left behind (all  *)
+(* entries in the root bucket) at any point of a history.                  *)
 (***************************************************************************)
 EXTENDS Integers, Sequences, FiniteSets, TLC, Json, HeaderStoreProps
 
@@ -42,11 +51,14 @@ CONSTANTS N,          \* header ids are 0..N-1, 0 is genesis
           MaxOps,     \* operations per history
           MaxFaults,  \* I/O errors per history
           MaxCrashes, \* crashes per history
+          MaxLegacy,  \* 1: the Legacy action may happen (once per history)
           FixSeekEnd, FixRollbackOrder, FixTornTail
 
 VARIABLES file,   \* [B |-> Seq(cell), F |-> Seq(cell)]
           pos,    \* [B |-> Nat, F |-> Nat]   descriptor offsets
-          idx,    \* [0..N-1 -> Int]  shared hash->height bucket, NF if absent
+          idx,    \* [0..N-1 -> Int]  hash->height, prefix sub-buckets, NF if absent
+          ridx,   \* [0..N-1 -> Int]  hash->height, legacy root bucket, NF if absent
+          leg,    \* 1 once the Legacy action has happened
           tipk,   \* [B |-> id, F |-> id]     tip keys (a block hash each)
           up,     \* 1 open, 2 crashed (awaiting Recover), 0 dead (open failed)
           nops, nfaults, ncrashes,
@@ -54,8 +66,8 @@ VARIABLES file,   \* [B |-> Seq(cell), F |-> Seq(cell)]
           act,    \* history: last action (label for replay)
           viol    \* history: properties violated by the last transition
 
-cvars == <<file, pos, idx, tipk, up>>
-vars  == <<file, pos, idx, tipk, up, nops, nfaults, ncrashes, abs, act, viol>>
+cvars == <<file, pos, idx, ridx, tipk, up>>
+vars  == <<file, pos, idx, ridx, leg, tipk, up, nops, nfaults, ncrashes, abs, act, viol>>
 
 Ids == 0..(N-1)
 H   == MaxLen + 1            \* heights 0..MaxLen are read back
@@ -75,12 +87,28 @@ ReadAt(f, h) ==
 TruncTo(f, n) == IF n <= Len(f) THEN SubSeq(f, 1, n)
                  ELSE f \o [k \in 1..(n - Len(f)) |-> Zero]
 
-IdxH(i) == IF i \in Ids THEN idx[i] ELSE NF
+\* index.go getHeaderEntry: sub-bucket first, then the legacy root bucket.
+Lk(ix, rx, i) == IF i \in Ids THEN (IF ix[i] # NF THEN ix[i] ELSE rx[i]) ELSE NF
+IdxH(i) == Lk(idx, ridx, i)
+
+\* Header id i (i >= 1) is built on top of id i-1 (PrevBlock); CheckConnectivity
+\* walks the file from the tip down to height 1 and wants every header to be
+\* the parent of the one above it and to be indexed at its height.
+Connected(fl, ix, rx, tk) ==
+  LET th == Lk(ix, rx, tk)
+  IN  \* th = 0: the loop variable (uint32 tipHeight - 1) wraps around and the
+      \* first read fails: a genesis-only store is reported as NOT connected.
+      \* (CheckConnectivity has no caller outside the tests; the model follows the code.)
+      /\ th # NF /\ th >= 1 /\ ReadAt(fl, th) # NF
+      /\ \A h \in 1..(th - 1) :
+            LET x == ReadAt(fl, h)
+                y == ReadAt(fl, h + 1)
+            IN  x \in Ids /\ Lk(ix, rx, x) = h /\ y = x + 1
 
 ----------------------------------------------------------------------------
 \* Observables: exactly what the Go projection reads through the public API.
-ObsOf(fl, ix, tk, u) ==
-  LET ixh(i) == IF i \in Ids THEN ix[i] ELSE NF
+ObsOf(fl, ix, rx, tk, u) ==
+  LET ixh(i) == Lk(ix, rx, i)
       tipOf(s) == LET t == tk[s]
                       h == ixh(t)
                       r == ReadAt(fl[s], h)
@@ -98,21 +126,31 @@ ObsOf(fl, ix, tk, u) ==
                       ELSE IF h = 0 THEN <<t>>
                       ELSE IF \E k \in 1..h : ReadAt(fl.B, h - k) = NF THEN <<ERR>>
                       ELSE <<t>> \o [k \in 1..h |-> ReadAt(fl.B, h - k)]
+      \* BlockLocatorFromHash(hash of id i): from the indexed height of i down
+      locOf(i) == LET h == ixh(i)
+                  IN  IF h = NF \/ h = 0 THEN <<i>>      \* unknown hash: the locator is just that hash
+                      ELSE IF \E k \in 1..h : ReadAt(fl.B, h - k) = NF THEN <<ERR>>
+                      ELSE <<i>> \o [k \in 1..h |-> ReadAt(fl.B, h - k)]
   IN  IF u # 1
       THEN [up |-> 0,
             B |-> [tip |-> <<ERR, ERR>>, byH |-> [h \in 1..H |-> ERR],
                    hOf |-> [i \in 1..N |-> ERR], byHash |-> [i \in 1..N |-> ERR],
-                   anc |-> <<ERR>>, loc |-> <<ERR>>],
+                   anc |-> <<ERR>>, loc |-> <<ERR>>,
+                   locOf |-> [i \in 1..N |-> <<ERR>>]],
             F |-> [tip |-> <<ERR, ERR>>, byH |-> [h \in 1..H |-> ERR],
-                   byHash |-> [i \in 1..N |-> ERR], anc |-> <<ERR>>]]
+                   byHash |-> [i \in 1..N |-> ERR], anc |-> <<ERR>>],
+            aux |-> [conn |-> ERR]]
       ELSE [up |-> 1,
             B |-> [tip |-> tipOf("B"), byH |-> byH("B"),
                    hOf |-> [i \in 1..N |-> ixh(i-1)],
-                   byHash |-> byHash("B"), anc |-> anc("B"), loc |-> loc],
+                   byHash |-> byHash("B"), anc |-> anc("B"), loc |-> loc,
+                   locOf |-> [i \in 1..N |-> locOf(i-1)]],
             F |-> [tip |-> tipOf("F"), byH |-> byH("F"),
-                   byHash |-> byHash("F"), anc |-> anc("F")]]
+                   byHash |-> byHash("F"), anc |-> anc("F")],
+            \* not part of the judged read API: CheckConnectivity (model prediction only)
+            aux |-> [conn |-> IF Connected(fl.B, ix, rx, tk.B) THEN 0 ELSE ERR]]
 
-Obs == ObsOf(file, idx, tipk, up)
+Obs == ObsOf(file, idx, ridx, tipk, up)
 
 ----------------------------------------------------------------------------
 \* file.go appendRaw.  wn = -1: the write succeeds; wn >= 0: the write puts wn
@@ -130,17 +168,25 @@ AppendRaw(f, p, cells, wn) ==
 
 \* Start-up of one store (store.go NewBlockHeaderStore / NewFilterHeaderStore).
 \* Returns [ok, file, idx, tip].
-OpenStore(s, f0, ix, tk) ==
+\* asr = <<height, id>> is the filter header state assertion handed to
+\* NewFilterHeaderStore (<<-1, -1>>: none): if the file has an entry at that
+\* height and it is not the asserted one, the file is removed and the store
+\* re-created with the genesis entry only (maybeResetHeaderState).
+OpenStore(s, f0, ix, rx, tk, asr) ==
   IF Len(f0) = 0
   THEN \* empty file: (re-)initialise with the genesis entry
        [ok |-> TRUE, file |-> CellsOf(<<0>>),
         idx |-> IF s = "B" THEN [ix EXCEPT ![0] = 0] ELSE ix, tip |-> 0]
   ELSE LET f1 == IF FixTornTail /\ Len(f0) % 2 = 1
                  THEN SubSeq(f0, 1, Len(f0) - 1) ELSE f0
-           th == IF tk \in Ids THEN ix[tk] ELSE NF
+           th == Lk(ix, rx, tk)
            fh == (Len(f1) \div 2) - 1
            latest == ReadAt(f1, fh)
-       IN  IF th = NF \/ fh < 0 THEN [ok |-> FALSE, file |-> f1, idx |-> ix, tip |-> tk]
+           reset == /\ s = "F" /\ asr[1] >= 0
+                    /\ 2 * asr[1] + 2 <= Len(f1)
+                    /\ ReadAt(f1, asr[1]) # asr[2]
+       IN  IF reset THEN [ok |-> TRUE, file |-> CellsOf(<<0>>), idx |-> ix, tip |-> 0]
+           ELSE IF th = NF \/ fh < 0 THEN [ok |-> FALSE, file |-> f1, idx |-> ix, tip |-> tk]
            ELSE IF s = "B" /\ latest = tk
                 THEN [ok |-> TRUE, file |-> f1, idx |-> ix, tip |-> tk]
            ELSE IF fh - th < 0   \* unsigned underflow => Truncate(negative) fails
@@ -149,11 +195,18 @@ OpenStore(s, f0, ix, tk) ==
                  idx |-> ix, tip |-> tk]
 
 \* Close + open both stores (block store first, as neutrino.go does).
-OpenBoth ==
-  LET b == OpenStore("B", file.B, idx, tipk.B)
-      f == OpenStore("F", file.F, b.idx, tipk.F)
+Assertion(as) ==
+  CASE as = 1 -> <<0, 0>>                               \* matches the stored genesis entry
+    [] as = 2 -> <<Len(abs.F) - 1, -7>>                   \* at the filter tip, some other hash
+    [] as = 3 -> <<Len(abs.F), -7>>                       \* above the filter tip
+    [] OTHER  -> <<-1, -1>>
+
+OpenBoth(as) ==
+  LET b == OpenStore("B", file.B, idx, ridx, tipk.B, <<-1, -1>>)
+      f == OpenStore("F", file.F, b.idx, ridx, tipk.F, Assertion(as))
   IN  /\ file' = [B |-> b.file, F |-> f.file]
       /\ idx'  = f.idx
+      /\ UNCHANGED <<ridx, leg>>
       /\ tipk' = [B |-> b.tip, F |-> f.tip]
       /\ pos'  = [B |-> 0, F |-> 0]
       /\ up'   = IF b.ok /\ f.ok THEN 1 ELSE 0
@@ -175,6 +228,7 @@ Stops(k) ==   \* where an append of k entries may stop
         THEN {<<"cw", n>> : n \in 1..(2 * k - 1)} \cup {<<"cfile", 0>>} ELSE {})
 
 Bump(st) ==
+  /\ UNCHANGED leg
   /\ nops' = nops + 1
   /\ nfaults'  = IF st[1] \in {"w", "idx"} THEN nfaults + 1 ELSE nfaults
   /\ ncrashes' = IF st[1] \in {"cw", "cfile", "c1"} THEN ncrashes + 1 ELSE ncrashes
@@ -201,7 +255,7 @@ AppendB(k, st) ==
   /\ up = 1 /\ nops < MaxOps
   /\ Len(batch) = k /\ Len(abs.B) + k <= MaxLen
   /\ st \in Stops(k)
-  /\ Bump(st)
+  /\ Bump(st) /\ UNCHANGED ridx
   /\ CASE st[1] \in {"cw", "cfile"} ->
             /\ file' = [file EXCEPT !.B = @ \o SubSeq(cells, 1,
                            IF st[1] = "cw" THEN st[2] ELSE Len(cells))]
@@ -237,7 +291,7 @@ AppendF(k, st) ==
   /\ up = 1 /\ nops < MaxOps
   /\ Len(abs.F) + k <= Len(abs.B)
   /\ st \in Stops(k)
-  /\ Bump(st)
+  /\ Bump(st) /\ UNCHANGED ridx
   /\ CASE st[1] \in {"cw", "cfile"} ->
             /\ file' = [file EXCEPT !.F = @ \o SubSeq(cells, 1,
                            IF st[1] = "cw" THEN st[2] ELSE Len(cells))]
@@ -275,7 +329,9 @@ RollbackB(n, st) ==
       prev == ReadAt(file.B, th - n)
       gone == {ReadAt(file.B, h) : h \in (th - n + 1)..th} \cap Ids
       fT   == [file EXCEPT !.B = TruncTo(@, Len(@) - 2 * n)]
-      iT   == [i \in Ids |-> IF i \in gone THEN NF ELSE idx[i]]
+      \* deleteHeaderEntries: a root-bucket entry wins, else the sub-bucket entry
+      iT   == [i \in Ids |-> IF i \in gone /\ ridx[i] = NF THEN NF ELSE idx[i]]
+      rT   == [i \in Ids |-> IF i \in gone THEN NF ELSE ridx[i]]
       tT   == [tipk EXCEPT !.B = prev]
       bad  == th = NF \/ n > th \/ 2 * (th + 1) > Len(file.B)
       fileFirst == ~FixRollbackOrder
@@ -286,17 +342,17 @@ RollbackB(n, st) ==
   /\ Bump(st)
   /\ UNCHANGED pos
   /\ IF n = 0
-     THEN /\ st[1] = "none" /\ UNCHANGED <<file, idx, tipk, up>>
+     THEN /\ st[1] = "none" /\ UNCHANGED <<file, idx, ridx, tipk, up>>
           /\ Finish(Act("RollbackB", <<>>, n, st, "ok"))
      ELSE IF bad
-     THEN /\ st[1] = "none" /\ UNCHANGED <<file, idx, tipk, up>>
+     THEN /\ st[1] = "none" /\ UNCHANGED <<file, idx, ridx, tipk, up>>
           /\ Finish(Act("RollbackB", <<>>, n, st, "err"))
      ELSE IF st[1] = "c1"
-     THEN /\ IF fileFirst THEN file' = fT /\ UNCHANGED <<idx, tipk>>
-                          ELSE idx' = iT /\ tipk' = tT /\ UNCHANGED file
+     THEN /\ IF fileFirst THEN file' = fT /\ UNCHANGED <<idx, ridx, tipk>>
+                          ELSE idx' = iT /\ ridx' = rT /\ tipk' = tT /\ UNCHANGED file
           /\ up' = 2
           /\ Finish(Act("RollbackB", <<>>, n, st, "crash"))
-     ELSE /\ file' = fT /\ idx' = iT /\ tipk' = tT /\ UNCHANGED up
+     ELSE /\ file' = fT /\ idx' = iT /\ ridx' = rT /\ tipk' = tT /\ UNCHANGED up
           /\ Finish(Act("RollbackB", <<>>, n, st, "ok"))
 
 \* filterHeaderStore.RollbackLastBlock(newTip); newTip is what the block
@@ -313,7 +369,7 @@ RollbackF(st) ==
   /\ Len(abs.F) >= 1          \* at length 1 this is a rollback past genesis: must fail, unchanged
   /\ st \in RbStops
   /\ Bump(st)
-  /\ UNCHANGED <<pos, idx>>
+  /\ UNCHANGED <<pos, idx, ridx>>
   /\ IF bad
      THEN /\ st[1] = "none" /\ UNCHANGED <<file, tipk, up>>
           /\ Finish(Act("RollbackF", <<>>, 1, st, "err"))
@@ -327,31 +383,44 @@ RollbackF(st) ==
 
 \* Orderly close + reopen. as = 1: the filter store is opened with a header
 \* state assertion that MATCHES what is stored (neutrino.Config.AssertFilterHeader);
-\* a passing assertion must not change anything about start-up.
+\* a passing assertion must not change anything about start-up.  as = 2: the
+\* assertion names another filter header at the filter tip height: the filter
+\* store is reset to genesis (and only it).  as = 3: the assertion is for a
+\* height the store does not have: no effect.
 Reopen(as) ==
   /\ up = 1 /\ nops < MaxOps
   /\ nops' = nops + 1 /\ UNCHANGED <<nfaults, ncrashes>>
-  /\ OpenBoth
+  /\ OpenBoth(as)
   /\ Finish(Act("Reopen", <<>>, as, <<"none", 0>>, IF up' = 1 THEN "ok" ELSE "err"))
 
 \* The process dies while no store call is running.
 Crash ==
   /\ up = 1 /\ nops < MaxOps /\ ncrashes < MaxCrashes
   /\ nops' = nops + 1 /\ ncrashes' = ncrashes + 1 /\ UNCHANGED nfaults
-  /\ up' = 2 /\ UNCHANGED <<file, pos, idx, tipk>>
+  /\ up' = 2 /\ UNCHANGED <<file, pos, idx, ridx, leg, tipk>>
   /\ Finish(Act("Crash", <<>>, 0, <<"none", 0>>, "crash"))
 
 \* Restart after a crash: all volatile state is gone, both stores are opened.
 Recover(as) ==
   /\ up = 2
   /\ UNCHANGED <<nops, nfaults, ncrashes>>
-  /\ OpenBoth
+  /\ OpenBoth(as)
   /\ Finish(Act("Recover", <<>>, as, <<"none", 0>>, IF up' = 1 THEN "ok" ELSE "err"))
+
+\* Environment: the index as an older version (root-bucket layout) leaves it.
+Legacy ==
+  /\ up = 1 /\ nops < MaxOps /\ leg < MaxLegacy
+  /\ nops' = nops + 1 /\ leg' = leg + 1 /\ UNCHANGED <<nfaults, ncrashes>>
+  /\ ridx' = [i \in Ids |-> IF idx[i] # NF THEN idx[i] ELSE ridx[i]]
+  /\ idx'  = [i \in Ids |-> NF]
+  /\ UNCHANGED <<file, pos, tipk, up>>
+  /\ Finish(Act("Legacy", <<>>, 0, <<"none", 0>>, "ok"))
 
 Init ==
   /\ file = [B |-> CellsOf(<<0>>), F |-> CellsOf(<<0>>)]
   /\ pos  = [B |-> 0, F |-> 0]        \* stores opened on existing files (as the driver does)
   /\ idx  = [i \in Ids |-> IF i = 0 THEN 0 ELSE NF]
+  /\ ridx = [i \in Ids |-> NF] /\ leg = 0
   /\ tipk = [B |-> 0, F |-> 0]
   /\ up = 1 /\ nops = 0 /\ nfaults = 0 /\ ncrashes = 0
   /\ abs = AbsInit
@@ -363,7 +432,8 @@ Next ==
   \/ \E k \in 0..MaxBatch : \E st \in Stops(k) : AppendF(k, st)
   \/ \E n \in 0..(MaxLen + 1) : \E st \in RbStops : RollbackB(n, st)
   \/ \E st \in RbStops : RollbackF(st)
-  \/ \E as \in {0, 1} : Reopen(as)
+  \/ \E as \in {0, 1, 2, 3} : Reopen(as)
+  \/ Legacy
   \/ Crash
   \/ \E as \in {0, 1} : Recover(as)
 
@@ -374,6 +444,8 @@ TypeOK ==
   /\ up \in {0, 1, 2}
   /\ \A s \in {"B", "F"} : pos[s] \in Nat
   /\ \A i \in Ids : idx[i] \in (0..MaxLen) \cup {NF}
+  /\ \A i \in Ids : ridx[i] \in (0..MaxLen) \cup {NF}
+  /\ leg \in 0..1
 
 \* Design-level statement of C07/C08 on the model (see MC*.cfg: it is listed
 \* as an invariant only in configurations whose switches describe repaired
@@ -384,8 +456,8 @@ NoViolation == viol = {}
 AbsBounded == Len(abs.B) <= MaxLen /\ Len(abs.F) <= Len(abs.B)
 
 \* Everything except the labels; a state's identity for graph export.
-State == [file |-> file, pos |-> pos, idx |-> idx, tipk |-> tipk, up |-> up,
+State == [file |-> file, pos |-> pos, idx |-> idx, ridx |-> ridx, leg |-> leg, tipk |-> tipk, up |-> up,
           nops |-> nops, nfaults |-> nfaults, ncrashes |-> ncrashes,
           abs |-> [B |-> abs.B, F |-> abs.F, alt |-> abs.alt, crashed |-> abs.crashed]]
-View == <<file, pos, idx, tipk, up, nops, nfaults, ncrashes, abs>>
+View == <<file, pos, idx, ridx, leg, tipk, up, nops, nfaults, ncrashes, abs>>
 =============================================================================
